@@ -6,7 +6,8 @@ import ast
 import math
 import operator
 
-from engine.loader import norm
+from engine.facts import stores_in
+from engine.loader import AnalysisError, norm
 
 RX = "param.reactive.rx"
 # Binary operators of the Python data model (language reference §3.3.8) and the
@@ -143,6 +144,8 @@ def run(ctx):
                       "raises for the bad input, and recovers", floor=1)
     ctx.rule("R09.t", "pipe / map call fn(value, *args, **kwargs): no named keyword parameter of the internal method the caller's `**kwargs` are forwarded to can capture a user keyword "
                       "(signature comparison at every forwarding call of param.reactive)", floor=2)
+    ctx.rule("R09.y", "the root is marked clean only after its function returned: in the rx._obj getter every `_dirty_obj = False` is dominated by the call of eval_function_with_deps", floor=1)
+    ctx.rule("R09.z", "eval_function_with_deps interpreted for positional Parameter dependencies of two interleaved owners calls the function with the values in the declared order", floor=1)
     ctx.rule("R09.x", "identity helpers see the argument itself: resolve_value, interpreted on a list / tuple / dict without references, returns the very object (is_ / is_not compare identities)", floor=1)
     ctx.rule("R09.s", "a watch callback sees the current value: the callbacks of the function form of depends (under .rx.watch and bind(..., watch=True)) read their dependencies with "
                       "getattr(dep.owner, dep.name) when they run and never take a value from the announcing event", floor=1)
@@ -380,6 +383,8 @@ def run(ctx):
     callbacks_read_current_values(ctx, "R09.s")
     user_keywords_reach_the_function(ctx, "R09.t")
     reference_free_arguments_keep_their_identity(ctx, "R09.x")
+    root_flag_cleared_after_success(ctx, "R09.y")
+    positional_dependencies_in_declared_order(ctx, "R09.z")
     from checks.shared import full_groupby_model
     full_groupby_model(ctx, "R09.q")
     from checks.shared import rx_attribute_resolution_is_per_object
@@ -581,3 +586,66 @@ def nested_references_are_resolved(ctx, rule):
             problems[0], len(problems)), key=f.qualname + "::nested-references-unresolved", input="t = T(l=[[s.param.x, 0]])   # nested_refs=True -> t.l == [[<Parameter x>, 0]]")
     else:
         ctx.ok(rule, f, f.node, "resolve_value resolves references at depth two inside lists, tuples and dicts (%d shapes)" % n)
+
+
+def root_flag_cleared_after_success(ctx, rule):
+    """rx._obj (the getter that refreshes the object at the root of an expression): the mark "the root has to be evaluated
+    again" is cleared only AFTER the root function has returned.  Cleared before, a root function that raises leaves the
+    root "clean": the branch that was read first caches the error, every sibling branch computes from the previous object
+    instead of raising the same exception."""
+    cls = ctx.repo.cls("param.reactive.rx")
+    getters = [g for g in cls.methods.get("_obj", []) if g.has_decorator("property")]
+    if not getters:
+        raise AnalysisError("%s: the property rx._obj was not found" % rule)
+    g = getters[0]
+    cfg = ctx.facts.cfg(g)
+    evals = [n for n in cfg.live_nodes() if n.kind != "br" and n.ast is not None and any(isinstance(c, ast.Call) and norm(c.func) == "eval_function_with_deps" for c in ast.walk(n.ast))]
+    clears = [n for n in cfg.live_nodes() for t in stores_in(n) if isinstance(t, ast.Attribute) and t.attr == "_dirty_obj"
+              and isinstance(n.ast, ast.Assign) and isinstance(n.ast.value, ast.Constant) and n.ast.value.value is False]
+    ctx.require(evals and clears, "rx._obj no longer evaluates the root function / clears the re-evaluation mark")
+    bad = [c for c in clears if not any(cfg.dominates(e, c) for e in evals)]
+    if bad:
+        ctx.fail(rule, g, bad[0], "`%s` is not preceded by the evaluation of the root function on every path: when that function raises, the root is already marked clean -- of two expressions "
+                                  "derived from one root, the one read second returns a value computed from the previous object instead of raising the same exception" % norm(bad[0].ast),
+                 key=g.qualname + "::flag-cleared-before-success", input="two branches over rx(bind(f, p)); p <- a value f raises for; read branch 1 (raises), read branch 2 -> stale value")
+    else:
+        ctx.ok(rule, g, clears[0], "the re-evaluation mark of the root is cleared after the root function returned")
+
+
+def positional_dependencies_in_declared_order(ctx, rule):
+    """eval_function_with_deps interpreted for a function declared depends(g.width, s.scale, g.height) -- positional Parameter
+    dependencies of two owners, interleaved: the function is called with the current values IN THE DECLARED ORDER."""
+    from engine.absint import Interp, Obj, Unsupported
+    f = ctx.repo.func("param.parameterized.eval_function_with_deps")
+    vw, vs, vh = Obj("value_of_g.width"), Obj("value_of_s.scale"), Obj("value_of_g.height")
+    g_, s_ = Obj("object_g", width=vw, height=vh), Obj("object_s", scale=vs)
+    deps = [Obj("P_g.width", owner=g_, name="width", __kind__="Parameter"), Obj("P_s.scale", owner=s_, name="scale", __kind__="Parameter"), Obj("P_g.height", owner=g_, name="height", __kind__="Parameter")]
+    fn = Obj("declared_function", _dinfo={"dependencies": list(deps), "kw": {}})
+    got = {}
+
+    def hook(fn_, args, kwargs):
+        if fn_ == "function":
+            got["args"], got["kwargs"] = tuple(hook.it.force(a) if not isinstance(a, Obj) else a for a in args), dict(kwargs)
+            return Obj("result")
+        if fn_ == "hasattr" and len(args) == 2:
+            return isinstance(args[0], Obj) and args[1] in args[0].attrs
+        if fn_ == "isinstance" and len(args) == 2:
+            return isinstance(args[0], Obj) and args[0].attrs.get("__kind__") == "Parameter"
+        if fn_ == "getattr" and len(args) == 2 and isinstance(args[0], Obj) and args[1] in args[0].attrs:
+            return args[0].attrs[args[1]]
+        return NotImplemented
+    it = Interp(ctx.hier, call_hook=hook, globals={"Parameter": "Parameter"})
+    hook.it = it
+    try:
+        outs = it.run_all(f, {"function": fn})
+    except Unsupported as e:
+        raise AnalysisError("%s: absint cannot interpret eval_function_with_deps: %s" % (rule, e))
+    if len(outs) != 1 or outs[0].imprecise or outs[0].kind != "return" or "args" not in got:
+        raise AnalysisError("%s: eval_function_with_deps is not interpretable precisely (%s)" % (rule, outs[0].notes[:2] if outs else "no outcome"))
+    ctx.abstract_cases += 1
+    a = got["args"]
+    if len(a) != 3 or a[0] is not vw or a[1] is not vs or a[2] is not vh or got["kwargs"]:
+        ctx.fail(rule, f, f.node, "a function declared depends(g.width, s.scale, g.height) is called with %s, specification (width, scale, height): the expression over it yields a value the plain call "
+                                  "would not compute" % ([getattr(x, "name", x) for x in a],), key=f.qualname + "::argument-order", input="@depends(g.param.width, s.param.scale, g.param.height) def area(w, k, h); rx(area)")
+    else:
+        ctx.ok(rule, f, f.node, "positional dependencies of interleaved owners reach the function in the declared order")
